@@ -43,3 +43,19 @@ Theorem C12_receiver {T} {O : Ops T} (sc sc' : @scene T) b b' tm (E E' : @arr4 T
   get3 (patchwise sc tm E r) k b t = get3 (patchwise sc' tm E' r) k b' t.
 Proof. intros G B. exact (patchwise_band sc sc' G b b' B tm E E' r k t). Qed.
 Print Assumptions C12_receiver.
+
+(** receiver curves (mono, with or without the direct sound) *)
+Theorem C12_receiver_curve {T} {O : Ops T} {RL : RingLaws T} (sc sc' : @scene T) b b' tm
+    (E E' : @arr4 T) (s s' : @source T) r direct (rdf rdf' : option (list T)) t :
+  same_geometry sc sc' -> band_match sc b sc' b' ->
+  (forall k d u, k < s_np sc -> get4 E k d b u = get4 E' k d b' u) ->
+  src_pos s = src_pos s' ->
+  match rdf, rdf' with
+  | None, None => True
+  | Some f, Some f' => nthT f b = nthT f' b'
+  | _, _ => False
+  end ->
+  b < s_nb sc -> b' < s_nb sc' -> t < n_samples tm ->
+  get2 (mono sc tm E s r direct rdf) b t = get2 (mono sc' tm E' s' r direct rdf') b' t.
+Proof. intros G B. exact (mono_band sc sc' G b b' B tm E E' s s' r direct rdf rdf' t). Qed.
+Print Assumptions C12_receiver_curve.
